@@ -8,12 +8,19 @@
    order (add_gene writes both, nothing deletes), so they are one association
    list here whose entries carry the gene and its current expression level;
    the harness checks list(_genes) == list(_expression) on every observation.
-   Gene names, descriptions and values are integers.  mutation_rate = 0 (the
-   random-mutation loop of replicate is outside the property).
+   Gene names and descriptions are integers.  Values are Python configuration
+   values [val]: None, booleans, integers, finite floats (as their exact
+   fraction) and strings (code points).  They are never computed with, only
+   stored, handed to the callback and compared for identity; in particular
+   None is a value like any other, distinct from "no such gene" / "no such log
+   entry" (which are [option]s here and `dict.get` / loop fall-through
+   sentinels in the Python).  mutation_rate = 0 (the random-mutation loop of
+   replicate is outside the property).
 
    get_hash is md5 of the JSON of the sorted name->value map; it is modelled
    by that sorted association list itself ([ghash]), so "same hash" is "same
-   value map"; the correspondence compares hashes only for (in)equality
+   value map" (JSON is injective on [val]: null / true / 1 / 1.0 / "1" are all
+   different texts); the correspondence compares hashes only for (in)equality
    through ids given in order of first appearance. *)
 From Coq Require Import ZArith List Bool.
 Import ListNotations.
@@ -23,21 +30,48 @@ Inductive gtype := Structural | Regulatory | Housekeeping | Conditional | Dorman
 Inductive level := Silenced | Low | Normal | High | Over.
 Inductive reason := RUser | RRollback | RReplication.
 
+(* a configuration value (Gene.value : Any, restricted to what json renders
+   injectively) *)
+Inductive val :=
+| VNone
+| VBool (b : bool)
+| VInt (z : Z)
+| VFloat (num den : Z)        (* a finite float, as its exact fraction *)
+| VStr (s : list Z).          (* code points *)
+
+Fixpoint zl_eqb (a b : list Z) : bool :=
+  match a, b with
+  | [], [] => true
+  | x :: a', y :: b' => (x =? y) && zl_eqb a' b'
+  | _, _ => false
+  end.
+
+(* identity of values: type and content (True is not 1, 1.0 is not 1) *)
+Definition val_eqb (a b : val) : bool :=
+  match a, b with
+  | VNone, VNone => true
+  | VBool x, VBool y => Bool.eqb x y
+  | VInt x, VInt y => x =? y
+  | VFloat n d, VFloat n' d' => (n =? n') && (d =? d')
+  | VStr s, VStr s' => zl_eqb s s'
+  | _, _ => false
+  end.
+
 Record gene := mkGene {
-  g_name : Z; g_value : Z; g_type : gtype; g_desc : Z;
+  g_name : Z; g_value : val; g_type : gtype; g_desc : Z;
   g_required : bool; g_default : level }.
 
 (* one key of _genes/_expression *)
 Record entry := mkEntry { e_gene : gene; e_level : level }.
 Definition key (e : entry) : Z := g_name (e_gene e).
-Definition value (e : entry) : Z := g_value (e_gene e).
+Definition value (e : entry) : val := g_value (e_gene e).
 Definition table := list entry.
 
 Record mrec := mkM {
-  m_gene : Z; m_orig : Z; m_new : Z; m_reason : reason; m_approved : bool }.
+  m_gene : Z; m_orig : val; m_new : val; m_reason : reason; m_approved : bool }.
 
 (* on_mutation(Mutation(gene_name, original_value, new_value, reason)) *)
-Definition oracle := Z -> Z -> Z -> reason -> bool.
+Definition oracle := Z -> val -> val -> reason -> bool.
 
 Record genome := mkGenome {
   allow : bool;
@@ -45,7 +79,7 @@ Record genome := mkGenome {
   tbl : table;
   mlog : list mrec;
   generation : Z;
-  parent : option (list (Z * Z)) }.      (* _parent_hash *)
+  parent : option (list (Z * val)) }.      (* _parent_hash *)
 
 (* ---- dict operations -------------------------------------------------- *)
 
@@ -67,20 +101,20 @@ Definition set_tbl (G : genome) (t : table) : genome :=
 Definition add_log (G : genome) (m : mrec) : genome :=
   mkGenome (allow G) (cb G) (tbl G) (mlog G ++ [m]) (generation G) (parent G).
 
-Definition stored (G : genome) (n : Z) : option Z :=
+Definition stored (G : genome) (n : Z) : option val :=
   match lookup (tbl G) n with Some e => Some (value e) | None => None end.
 
 (* the name -> value map, in dict order, and its canonical (sorted) form *)
-Definition kv (e : entry) : Z * Z := (key e, value e).
-Definition vals (G : genome) : list (Z * Z) := map kv (tbl G).
+Definition kv (e : entry) : Z * val := (key e, value e).
+Definition vals (G : genome) : list (Z * val) := map kv (tbl G).
 
-Fixpoint insert_kv (x : Z * Z) (l : list (Z * Z)) : list (Z * Z) :=
+Fixpoint insert_kv (x : Z * val) (l : list (Z * val)) : list (Z * val) :=
   match l with
   | [] => [x]
   | y :: r => if fst x <=? fst y then x :: l else y :: insert_kv x r
   end.
-Definition canon (l : list (Z * Z)) : list (Z * Z) := fold_right insert_kv [] l.
-Definition ghash (G : genome) : list (Z * Z) := canon (vals G).
+Definition canon (l : list (Z * val)) : list (Z * val) := fold_right insert_kv [] l.
+Definition ghash (G : genome) : list (Z * val) := canon (vals G).
 
 (* ---- Genome methods --------------------------------------------------- *)
 
@@ -98,14 +132,14 @@ Definition g_add (G : genome) (g : gene) : genome * bool :=
 (* the gate of mutate: allow_mutations, else the callback's verdict on this
    very change, else refuse.  The callback is not consulted when
    allow_mutations is on. *)
-Definition approved_by (G : genome) (n old v : Z) (r : reason) : bool :=
+Definition approved_by (G : genome) (n : Z) (old v : val) (r : reason) : bool :=
   if allow G then true
   else match cb G with Some f => f n old v r | None => false end.
 
-Definition with_value (g : gene) (v : Z) : gene :=
+Definition with_value (g : gene) (v : val) : gene :=
   mkGene (g_name g) v (g_type g) (g_desc g) (g_required g) (g_default g).
 
-Definition g_mutate (G : genome) (n v : Z) (r : reason) : genome * bool :=
+Definition g_mutate (G : genome) (n : Z) (v : val) (r : reason) : genome * bool :=
   match lookup (tbl G) n with
   | None => (G, false)
   | Some e =>
@@ -115,7 +149,9 @@ Definition g_mutate (G : genome) (n v : Z) (r : reason) : genome * bool :=
       else (add_log G (mkM n (value e) v r false), false)
   end.
 
-(* for mutation in reversed(self._mutations): first approved one on the gene *)
+(* for mutation in reversed(self._mutations): first approved one on the gene.
+   Whether there is one is independent of the values it records: an entry
+   whose original value is None is found like any other. *)
 Definition last_approved (l : list mrec) (n : Z) : option mrec :=
   find (fun m => (m_gene m =? n) && m_approved m) (rev l).
 
@@ -142,14 +178,15 @@ Definition expressed (ctx : list Z) (e : entry) : bool :=
        | _ => true
        end.
 
-Definition g_express (G : genome) (ctx : list Z) : list (Z * Z) :=
+Definition g_express (G : genome) (ctx : list Z) : list (Z * val) :=
   map kv (filter (expressed ctx) (tbl G)).
 
-(* get_value(name, default=None) *)
-Definition g_get_value (G : genome) (n : Z) : option Z :=
+(* get_value(name, default): the default for an unknown or silenced gene,
+   else the stored value (which may itself be None) *)
+Definition g_get_value (G : genome) (n : Z) (default : val) : val :=
   match lookup (tbl G) n with
-  | None => None
-  | Some e => if is_silenced (e_level e) then None else Some (value e)
+  | None => default
+  | Some e => if is_silenced (e_level e) then default else value e
   end.
 
 Definition empty_genome (a : bool) (c : option oracle) : genome :=
@@ -167,10 +204,10 @@ Definition child_base (G : genome) : genome :=
 Definition inherit_levels (C : genome) (ptbl : table) : genome :=
   fold_left (fun C e => fst (g_set_level C (key e) (e_level e))) ptbl C.
 
-Definition apply_muts (C : genome) (muts : list (Z * Z)) : genome :=
+Definition apply_muts (C : genome) (muts : list (Z * val)) : genome :=
   fold_left (fun C nv => fst (g_mutate C (fst nv) (snd nv) RReplication)) muts C.
 
-Definition g_replicate (G : genome) (muts : list (Z * Z)) (inh : bool) : genome :=
+Definition g_replicate (G : genome) (muts : list (Z * val)) (inh : bool) : genome :=
   let c1 := child_base G in
   let c2 := if inh then inherit_levels c1 (tbl G) else c1 in
   apply_muts c2 muts.
@@ -179,18 +216,18 @@ Definition g_replicate (G : genome) (muts : list (Z * Z)) (inh : bool) : genome 
 
 Inductive gop :=
 | OAdd (g : gene)
-| OMutate (n v : Z)
+| OMutate (n : Z) (v : val)
 | ORollback (n : Z)
 | OSetExpr (n : Z) (l : level)
 | OSilence (n : Z)
 | OActivate (n : Z)
-| OReplicate (muts : list (Z * Z)) (inh : bool)
+| OReplicate (muts : list (Z * val)) (inh : bool)
 | OExpress (ctx : list Z).
 
 Inductive out :=
 | RetBool (b : bool)
 | RetChild (i : nat)
-| RetConfig (c : list (Z * Z))
+| RetConfig (c : list (Z * val))
 | RetBadTarget.
 
 (* effect of an operation on the genome it is called on *)
@@ -244,10 +281,21 @@ Definition run (W : world) (ops : list op) : world :=
 (* ---------------------------------------------------------------------- *)
 (* scripted approval callbacks used by the generated cases                 *)
 
+(* a number read off a value, for the arithmetic rules below (the scripted
+   callbacks of the harness compute the same number) *)
+Definition val_num (v : val) : Z :=
+  match v with
+  | VNone => 0
+  | VBool b => if b then 1 else 0
+  | VInt z => z
+  | VFloat n _ => n
+  | VStr s => Z.of_nat (length s)
+  end.
+
 Inductive orule :=
-| RMatch (g o v : option Z) (r : option reason)   (* None = wildcard *)
-| RNewMod (m k : Z)                                (* new_value mod m = k *)
-| RGrow.                                           (* new_value > original *)
+| RMatch (g : option Z) (o v : option val) (r : option reason)   (* None = wildcard *)
+| RNewMod (m k : Z)                                (* num(new_value) mod m = k *)
+| RGrow.                                           (* num(new_value) > num(original) *)
 
 Definition reason_code (r : reason) : Z :=
   match r with RUser => 0 | RRollback => 1 | RReplication => 2 end.
@@ -255,13 +303,16 @@ Definition reason_code (r : reason) : Z :=
 Definition opt_match (p : option Z) (x : Z) : bool :=
   match p with None => true | Some y => y =? x end.
 
-Definition rule_ok (n old v : Z) (r : reason) (q : orule) : bool :=
+Definition opt_vmatch (p : option val) (x : val) : bool :=
+  match p with None => true | Some y => val_eqb y x end.
+
+Definition rule_ok (n : Z) (old v : val) (r : reason) (q : orule) : bool :=
   match q with
   | RMatch g o w rr =>
-      opt_match g n && opt_match o old && opt_match w v &&
+      opt_match g n && opt_vmatch o old && opt_vmatch w v &&
       match rr with None => true | Some r' => reason_code r' =? reason_code r end
-  | RNewMod m k => (v mod m) =? k
-  | RGrow => old <? v
+  | RNewMod m k => (val_num v mod m) =? k
+  | RGrow => val_num old <? val_num v
   end.
 
 Definition interp_oracle (rules : list orule) : oracle :=
@@ -276,18 +327,31 @@ Definition type_code (t : gtype) : Z :=
 Definition level_code (l : level) : Z :=
   match l with Silenced => 0 | Low => 1 | Normal => 2 | High => 3 | Over => 4 end.
 
-Definition kv_flat (l : list (Z * Z)) : list Z := flat_map (fun p => [fst p; snd p]) l.
+(* self-delimiting code of a value *)
+Definition val_code (v : val) : list Z :=
+  match v with
+  | VNone => [0]
+  | VBool b => [1; b2z b]
+  | VInt z => [2; z]
+  | VFloat n d => [3; n; d]
+  | VStr s => 4 :: Z.of_nat (length s) :: s
+  end.
+
+Definition kv_flat (l : list (Z * val)) : list Z := flat_map (fun p => fst p :: val_code (snd p)) l.
 
 Definition gene_row (e : entry) : list Z :=
   let g := e_gene e in
-  [g_name g; g_value g; type_code (g_type g); g_desc g; b2z (g_required g);
+  g_name g :: val_code (g_value g) ++
+  [type_code (g_type g); g_desc g; b2z (g_required g);
    level_code (g_default g); level_code (e_level e)].
 
+(* get_value(name) (default None) and get_value(name, -1000) *)
 Definition getvalue_row (G : genome) (e : entry) : list Z :=
-  match g_get_value G (key e) with Some v => [1; v] | None => [0; 0] end.
+  val_code (g_get_value G (key e) VNone) ++ val_code (g_get_value G (key e) (VInt (-1000))).
 
 Definition mrec_row (m : mrec) : list Z :=
-  [m_gene m; m_orig m; m_new m; reason_code (m_reason m); b2z (m_approved m)].
+  m_gene m :: val_code (m_orig m) ++ val_code (m_new m) ++
+  [reason_code (m_reason m); b2z (m_approved m)].
 
 Definition ctx_b : list Z := [0; 2; 4; 6; 8].
 
@@ -300,22 +364,22 @@ Definition detail_rows (G : genome) (from : nat) : list (list Z) :=
     flat_map mrec_row (skipn from (mlog G)) ].
 
 (* hash ids in order of first appearance *)
-Definition htable := list (list (Z * Z)).
+Definition htable := list (list (Z * val)).
 
-Fixpoint kvl_eqb (a b : list (Z * Z)) : bool :=
+Fixpoint kvl_eqb (a b : list (Z * val)) : bool :=
   match a, b with
   | [], [] => true
-  | (x1, y1) :: a', (x2, y2) :: b' => (x1 =? x2) && (y1 =? y2) && kvl_eqb a' b'
+  | (x1, y1) :: a', (x2, y2) :: b' => (x1 =? x2) && val_eqb y1 y2 && kvl_eqb a' b'
   | _, _ => false
   end.
 
-Fixpoint index_of (k : list (Z * Z)) (t : htable) (i : Z) : option Z :=
+Fixpoint index_of (k : list (Z * val)) (t : htable) (i : Z) : option Z :=
   match t with
   | [] => None
   | x :: r => if kvl_eqb x k then Some i else index_of k r (i + 1)
   end.
 
-Definition intern (t : htable) (k : list (Z * Z)) : htable * Z :=
+Definition intern (t : htable) (k : list (Z * val)) : htable * Z :=
   match index_of k t 0 with
   | Some i => (t, i)
   | None => (t ++ [k], Z.of_nat (length t))
